@@ -25,7 +25,7 @@ META = {
 
 
 def configs(tier, seed):
-    base = C01.configs(tier, seed)
+    base = [c for c in C01.configs(tier, seed) if 'dim' in c]
     out = []
     for i, c in enumerate(base):
         if tier == 'quick' and c['dim'] == 1 and not ((i + seed) % 3 == 0 or c['N'] <= 5):
